@@ -13,7 +13,9 @@ BODIES = [b"keep;\r\n", b"", b"OK\r\n", b"OK \"done\"\r\nkeep;\r\n", b"NO\r\n", 
           b'require "fileinto";\r\nif header :is "a" "OK" {\r\n  fileinto "NO";\r\n}\r\n', b"x" * 5000, b"tab\there\r\n", b"{2+}\r\nOK\r\n", b"\\\"\r\n",
           b"form\x0cfeed\r\nnext\r\n", b"vt\x0bx\r\n", b"fs\x1cgs\x1drs\x1ex\r\n", b"nel \xc2\x85 x\r\n", b"ls \xe2\x80\xa8 ps \xe2\x80\xa9 x\r\n",
           # a byte order mark is text like any other: first in the script, first in a later line, inside a line
-          b"\xef\xbb\xbfkeep;\r\n", b"keep;\r\n\xef\xbb\xbfstop;\r\n\xef\xbb\xbf\xef\xbb\xbfx\r\n", b"a\xef\xbb\xbfb\r\n"]
+          b"\xef\xbb\xbfkeep;\r\n", b"keep;\r\n\xef\xbb\xbfstop;\r\n\xef\xbb\xbf\xef\xbb\xbfx\r\n", b"a\xef\xbb\xbfb\r\n",
+          # a script that, as a whole, looks like a quoted string (stored data, served as a literal: it is not one)
+          b'"keep;"\r\n', b'"OK"', b'"a \\"b\\" \\\\ c"\r\n', b'""\r\n', b'"two"\r\n"lines"\r\n']
 NAMES = [b"a", b"main", b'q"uote', b"back\\slash", b"{5}", b"{3+}", b"OK", b"NO x", b"BYE", b"ACTIVE", b"x ACTIVE", b'"', b"\xc3\xa9t\xc3\xa9", b"sp ace", b"a b c", b"\\\"",
          b'my "best" rules', b'keep "this" ACTIVE', b'two "q" and "r"', b"form\x0cfeed",
          b'"draft', b"it\"s", b'"a\\"b']
